@@ -383,6 +383,45 @@ fn f6(cap: usize, use_async_tail: bool) -> impl Fn() + Send + Sync + 'static {
   }
 }
 
+// ---- F6b: filtered batch pushed into a pipe that already holds a message, consumer draining meanwhile --
+
+fn f6b(cap: usize, nonmatching_first: usize) -> impl Fn() + Send + Sync + 'static {
+  move || {
+    let trie = Trie::new();
+    trie.subscribe(b"a");
+    let ing = Arc::new(AnonIngress::new(4));
+    let tx = ing.register_filtered(1, cap, &trie, 0);
+    let p = spawn(async move {
+      // M0 is already queued when the batch arrives
+      tx.send(topic_batch(b"a", 0)).await.expect("pipe open");
+      let mut dq: VecDeque<FrameBatch> = VecDeque::new();
+      for k in 0..nonmatching_first {
+        dq.push_back(topic_batch(b"b", 10 + k as u8)); // filtered out
+      }
+      dq.push_back(topic_batch(b"a", 1));
+      dq.push_back(topic_batch(b"a", 2));
+      let _ = tx.try_send_batch(&mut dq);
+      while let Some(b) = dq.pop_front() {
+        tx.send(b).await.expect("pipe open");
+      }
+    });
+    let ic = ing.clone();
+    let c = spawn(async move {
+      let mut got = vec![];
+      for _ in 0..3 {
+        let b = ic.recv_multipart(None).await.expect("ingress open");
+        got.push(b[0].data().unwrap().to_vec());
+      }
+      got
+    });
+    let got = block_on(c).unwrap();
+    block_on(p).unwrap();
+    e2::check(got == vec![b"a\x00".to_vec(), b"a\x01".to_vec(), b"a\x02".to_vec()], "popped-sequence-wrong", "filtered", || format!("got {:?}", got));
+    e2::nontrivial();
+    e2::outcome(mc_core::digest(&got));
+  }
+}
+
 // ---- F7: recv with RCVTIMEO (the timeout is modelled as a cancellation of the pop) on AnonIngress --
 
 fn f7(k: usize) -> impl Fn() + Send + Sync + 'static {
@@ -443,6 +482,8 @@ pub fn harnesses(tier: Tier) -> Vec<Harness> {
   }
   v.push(Harness::new("F6:filtered-batch-cap1-async", cfg.clone(), f6(1, true)));
   v.push(Harness::new("F6:filtered-batch-cap2-try", cfg.clone(), f6(2, false)));
+  v.push(Harness::new("F6b:filtered-batch-into-nonempty-cap4", cfg.clone(), f6b(4, 1)));
+  v.push(Harness::new("F6b:filtered-batch-into-nonempty-cap2", cfg.clone(), f6b(2, 0)));
   for k in 1..=2 {
     v.push(Harness::new(format!("F7:recv-timeout-at-{}", k), cfg.clone(), f7(k)));
   }
